@@ -13,7 +13,7 @@ Proof.
     by (destruct (fx_parent_reuse fx); [exact R | reflexivity]).
   rewrite P0. cbn [obind]. rewrite Lr, Rr. cbn [obind].
   destruct (o_pid o =? r); [reflexivity|].
-  unfold ppid_call. rewrite R, L, C. cbn [obind].
+  unfold ppid_call. rewrite R, L. cbn [obind]. rewrite (caller_start_alive fx t o A). cbn [obind].
   pose proof (lookup_In _ _ _ L) as [He _].
   destruct (wf_range t e W He) as [_ [P1 P2]].
   unfold proc_new.
@@ -61,8 +61,9 @@ Proof.
   destruct (o_pid o =? l); [left; eexists; reflexivity|].
   unfold ppid_call. destruct R as [R|R]; rewrite R; cbn [obind]; [|right; reflexivity].
   destruct (lookup t (o_pid o)) as [e|] eqn:L; cbn [obind]; [|right; reflexivity].
-  assert (C : (exists c, self_ctime t o = Val c)).
-  { unfold self_ctime. destruct (o_ctime o) as [c|]; [exists c; reflexivity|]. rewrite L. eexists. reflexivity. }
+  assert (C : (exists c, caller_start fx t o = Val c)).
+  { unfold caller_start, self_ctime. destruct (fx_mono fx); [eexists; reflexivity|].
+    destruct (o_ctime o) as [c|]; [exists c; reflexivity|]. rewrite L. eexists. reflexivity. }
   destruct C as [c C]. rewrite C. cbn [obind].
   pose proof (lookup_In _ _ _ L) as [He _].
   destruct (wf_range t e W He) as [_ [P1 P2]].
@@ -308,14 +309,14 @@ Section ParentsV.
 End ParentsV.
 
 (* parents() returns the chain demanded under vanishing, whenever that chain ends *)
-Theorem parents_chain_v_complete : forall t gone goneb cache o l fuel,
-  wf_table t = true -> alive_b t o = true -> cache_fresh_b t cache = true ->
+Theorem parents_chain_v_fx : forall fx t gone goneb cache o l fuel,
+  fx_parents_nsp fx = true -> wf_table t = true -> alive_b t o = true -> cache_fresh_b t cache = true ->
   memz (o_pid o) goneb = false ->
   chain_v t gone goneb (o_pid o) l -> (length l <= fuel)%nat ->
-  parents as_is fuel t gone goneb cache o = Val (Some l).
+  parents fx fuel t gone goneb cache o = Val (Some l).
 Proof.
-  intros t gone goneb cache o l fuel W A F Ng Ch B. destruct (alive_facts t o A) as [_ [_ [e [L St]]]].
-  unfold parents. rewrite (parent_spec_v as_is t gone cache o W A F). cbn [obind].
+  intros fx t gone goneb cache o l fuel F2 W A F Ng Ch B. destruct (alive_facts t o A) as [_ [_ [e [L St]]]].
+  unfold parents. rewrite (parent_spec_v fx t gone cache o W A F). cbn [obind].
   pose proof (cache_after_fresh t cache o A F) as F'.
   destruct (cache_after_some t cache o A) as [low Hl]. rewrite Hl in *.
   pose proof (chain_v_NoDup t gone goneb _ _ Ng Ch) as ND.
@@ -327,17 +328,24 @@ Proof.
     destruct (spec_parent_v t gone (o_pid o) (o_ident o)) as [[q2 s2]|] eqn:SP; [|discriminate].
     cbn [option_map fst] in Hs. injection Hs as ->.
     destruct fuel as [|f]; [cbn [length] in B; lia|].
-    rewrite (loop_goneb as_is t gone goneb low eq_refl f [o_pid o] q s2 [] Hg); [reflexivity|].
+    rewrite (loop_goneb fx t gone goneb low F2 f [o_pid o] q s2 [] Hg); [reflexivity|].
     apply memz_false. intros [E|[]]. apply Hp. left. symmetry. exact E.
   - rewrite (spec_parent_of_v_eq t gone _ _ e L St) in Hs.
     destruct (spec_parent_v t gone (o_pid o) (o_ident o)) as [[q2 s2]|] eqn:SP; [|discriminate].
     cbn [option_map fst] in Hs. injection Hs as ->.
     destruct (spec_parent_v_listed _ _ _ _ _ _ SP) as [e' [L' S']].
-    rewrite (loop_complete_v as_is t gone goneb low eq_refl W F' l' q s2 e' [] [o_pid o] fuel Ch' L' S' Hg);
+    rewrite (loop_complete_v fx t gone goneb low F2 W F' l' q s2 e' [] [o_pid o] fuel Ch' L' S' Hg);
       [reflexivity| | |exact ND'].
     + cbn [length] in B. lia.
     + intros x [Hx|[]] Hin. subst x. apply Hp. exact Hin.
 Qed.
+
+Theorem parents_chain_v_complete : forall t gone goneb cache o l fuel,
+  wf_table t = true -> alive_b t o = true -> cache_fresh_b t cache = true ->
+  memz (o_pid o) goneb = false ->
+  chain_v t gone goneb (o_pid o) l -> (length l <= fuel)%nat ->
+  parents as_is fuel t gone goneb cache o = Val (Some l).
+Proof. intros t gone goneb cache o l fuel. apply parents_chain_v_fx. reflexivity. Qed.
 
 (* hence: whenever the harness's oracle names a chain, the model of the code returns it *)
 Theorem parents_oracle : forall t gone goneb cache o l,
